@@ -18,7 +18,7 @@ RULE = ("histories of add/try_add node and edge (failing calls on vacant, out-of
         "non-trivial = a vacancy is created and an element is added afterwards")
 ASSUMPTIONS = [
     "the Gallina model mirrors src/graph_impl/stable_graph/mod.rs as repaired by the fix: commits (checked by the differential run on generated histories only)",
-    "u16/u32/usize histories stay below the index limit; only u8 runs at its limit",
+    "u16 runs with its true limit (65535) but no generated history reaches it; u32/usize histories stay below the stand-in sentinel 3000; only u8 runs at its limit (node fill, edge fill, and the padding loop of extend_with_edges running into the limit)",
     "retain_*/filter_map closures are weight predicates",
 ]
 SCOPE = "see Props/C02.v"
@@ -221,6 +221,8 @@ def oracle(stream, header, ops, obs):
                 for ix in (s, t_):
                     if ix not in nodes:
                         if cc and ix >= cap:
+                            # ensure_node_exists pads with vacant slots until add_node panics: the vector is left with cap entries
+                            raw["n"] = max(raw["n"], cap)
                             ok = False
                             break
                         nodes[ix] = 0
